@@ -193,6 +193,10 @@ P_Paired(c, g) == \A i \in OkIdx(g) : g[i].fill > 0 /\ g[i].setout = F(g[i].fill
 P_NoDup(c, g) == \A i, j \in OkIdx(g) : i # j => g[i].fill # g[j].fill
 P_AllDelivered(c, g, res) == (res = "ok" /\ ErrIdxP(c) = 0 /\ DrainsP(c) /\ c.RDInitFailAt = 0)
                                => {g[i].fill : i \in OkIdx(g)} = 1..NSetsOf(c) /\ g # <<>> /\ g[Len(g)].t = "end"
+\* a call that hangs while the consumer is still owed a result (it has asked for fewer than StopAfter results and
+\* fewer than the reader produces: the sets before the error or the end, plus that error or end) withholds sets from it
+OwedP(c) == IF ErrIdxP(c) > 0 THEN ErrIdxP(c) ELSE NSetsOf(c) + 1
+P_Served(c, g, res) == (res = "hang" /\ ~c.RInitFail /\ c.DInitFailAt = 0 /\ c.RDInitFailAt = 0) => ~(Len(g) < c.StopAfter /\ Len(g) < OwedP(c))
 P_InOrder1(c, g) == c.NW = 1 => \A i, j \in OkIdx(g) : i < j => g[i].fill < g[j].fill
 \* C15
 P_ErrOnce(c, g) == Cardinality({i \in 1..Len(g) : g[i].t = "err"}) <= (IF ErrIdxP(c) > 0 THEN 1 ELSE 0)
